@@ -17,8 +17,9 @@ from .shim import oarr, SymNd
 
 
 class Goal:
-    def __init__(self, name, t, margin=None, meta=None, path=None, expect="unsat"):
+    def __init__(self, name, t, margin=None, meta=None, path=None, expect="unsat", nassume=None, nside=None):
         self.name, self.t, self.margin, self.meta, self.path, self.expect = name, t, margin, meta or {}, path or [], expect
+        self.nassume = nassume   # a goal only sees the assumptions made before it (lemma pattern: goal(l); assume(l))
 
 
 class _SBm(SB):
@@ -37,6 +38,7 @@ class SymWorld:
         self.inputs = {}
         self.notes = []
         self.bounds = []     # extra constraints used only when asking for a replay-friendly model
+        self.nice = []       # harness-supplied constraints for replay-friendly models (e.g. dyadic parameters)
 
     # ---- inputs
     def real(self, name, lo=None, hi=None):
@@ -116,7 +118,12 @@ class SymWorld:
 
     def goal(self, name, cond, **meta):
         t = self._b(cond)
-        self.goals.append(Goal(name, t, getattr(cond, "margin", None), meta, list(self.run.path)))
+        self.goals.append(Goal(name, t, getattr(cond, "margin", None), meta, list(self.run.path), nassume=len(self.run.assumptions)))
+
+    def lemma(self, name, cond, **meta):
+        """prove cond, then let later goals use it"""
+        self.goal(name, cond, **meta)
+        self.assume(cond)
 
     def witness(self, name, cond, **meta):
         """an existential clause: the condition must be satisfiable under the assumptions"""
@@ -126,7 +133,7 @@ class SymWorld:
         """turn the definedness conditions raised so far into goals"""
         for i, (kind, g, c) in enumerate(self.run.vcs):
             if kind in kinds:
-                self.goals.append(Goal("%s/vc%d:%s" % (prefix, i, kind), z3.Implies(g, c), None, {"vc": str(c)[:200]}, list(self.run.path)))
+                self.goals.append(Goal("%s/vc%d:%s" % (prefix, i, kind), z3.Implies(g, c), None, {"vc": str(c)[:200]}, list(self.run.path), nassume=len(self.run.assumptions)))
 
     def note(self, s):
         self.notes.append(s)
@@ -215,7 +222,7 @@ class ConWorld:
 
 
 # ----------------------------------------------------------------------------- running one obligation
-def run_obligation(fn, params, name, timeout=20.0, fork=False, max_paths=64, vacuity=True, replay=True):
+def run_obligation(fn, params, name, timeout=20.0, fork=False, max_paths=64, vacuity=True, replay=True, only=None):
     """execute fn symbolically (all paths when fork=True), discharge every goal, replay sat models.
     returns a plain dict (picklable)."""
     t0 = time.time()
@@ -262,7 +269,10 @@ def run_obligation(fn, params, name, timeout=20.0, fork=False, max_paths=64, vac
                     out["status"] = "vacuous"
                 continue
             out["goals"].append({"goal": "<reachability>" + ("" if not dec else "#p%d" % npaths), "verdict": "reachable" if r["verdict"] == "sat" else "reach-unknown", "time": r["time"], "trivial": True})
+        import fnmatch as _fn
         for g in W.goals:
+            if only and not any(_fn.fnmatch(g.name, pat) for pat in only):
+                continue
             out["goals"].append(_discharge(fn, params, W, g, base, timeout, replay, npaths if fork else None))
     out["paths"] = npaths
     out["wall_s"] = round(time.time() - t0, 3)
@@ -272,7 +282,7 @@ def run_obligation(fn, params, name, timeout=20.0, fork=False, max_paths=64, vac
 def _discharge(fn, params, W, g, base, timeout, replay, pathno):
     gname = g.name if pathno is None else "%s#p%d" % (g.name, pathno)
     rec = {"goal": gname, "meta": _jsonable(g.meta), "expect": g.expect}
-    q = base + g.path
+    q = (W.run.assumptions[:g.nassume] + W.run.side if g.nassume is not None else base) + g.path
     if g.expect == "sat":
         r = solve.check(q + [g.t], timeout=timeout, inputs=W.inputs)
         rec.update(verdict={"sat": "holds", "unsat": "violated", "unknown": "unknown"}[r["verdict"]], time=r["time"], engine=r["engine"], size=r["size"], hash=r["hash"])
@@ -292,17 +302,23 @@ def _discharge(fn, params, W, g, base, timeout, replay, pathno):
     elif r["verdict"] == "unknown":
         rec["verdict"] = "unknown"
     else:
-        model = r["model"] or {}
-        # ask for a replay-friendly model: bounded inputs and a clear margin
-        if g.margin is not None:
-            r2 = solve.check(q + [g.margin] + W.bounds, timeout=min(timeout, 10.0), inputs=W.inputs, portfolio=False)
+        models = [r["model"] or {}]
+        # ask for replay-friendly models: (a) harness-supplied "nice" constraints (dyadic parameters survive the
+        # conversion to binary64), (b) bounded inputs and a clear margin
+        for extra in ([W.nice + W.bounds] if W.nice else []) + ([W.nice] if W.nice else []) + ([[g.margin] + W.bounds] if g.margin is not None else []):
+            r2 = solve.check(q + [z3.Not(g.t)] + list(extra), timeout=min(timeout, 10.0), inputs=W.inputs, portfolio=False)
             if r2["verdict"] == "sat" and r2["model"]:
-                model = r2["model"]
-        rec["model"] = {k: _fr(v) for k, v in model.items() if "!" not in k}
+                models.insert(0, r2["model"])
+        rec["model"] = {k: _fr(v) for k, v in models[0].items() if "!" not in k}
         if replay:
-            ok, info = replay_goal(fn, params, model, g.name)
-            rec["replay"] = info
-            rec["verdict"] = "violated" if ok else "unconfirmed"
+            rec["verdict"] = "unconfirmed"
+            for mdl in models:
+                ok, info = replay_goal(fn, params, mdl, g.name)
+                rec["replay"] = info
+                if ok:
+                    rec["verdict"] = "violated"
+                    rec["model"] = {k: _fr(v) for k, v in mdl.items() if "!" not in k}
+                    break
         else:
             rec["verdict"] = "sat-noreplay"
     return rec
